@@ -18,7 +18,8 @@
    Across processes (Runtime/AgentProc.v, compared with a real Agent driven by 2-3 processes that open, request,
    answer and exit with requests unanswered): C19_processes_independent - whether the agent lists a process and the
    frames it holds for it depend on that process's own accepts, firings and exit only, whatever other processes do in
-   between.
+   between; C19_live_process_frames - so the frames of a port of a live process are the pairing of the single-process
+   theorem over that process's own firings.
 
    Transparency ("no response changes") is differential and measured, not proved: packet hooks are
    arbitrary Go code run inside the endpoints' critical sections; in the model they are observers by
@@ -84,3 +85,15 @@ Theorem C19_processes_independent : forall g evs p,
   AgentProc.view p (AgentProc.g_run g evs) = AgentProc.view p (AgentProc.g_run g (filter (AgentProc.own p) evs)).
 Proof. exact AgentProc.agent_processes_independent. Qed.
 Print Assumptions C19_processes_independent.
+
+(* a live process among others: from its accept on (it was unknown to the agent before), with no exit in between, the
+   frames the agent holds for a port of that process pair the k-th packet the port's inbound hook saw with the k-th
+   packet its outbound hook saw - whatever other processes do, start, or terminate meanwhile *)
+Theorem C19_live_process_frames : forall pre post p x,
+  AgentProc.untouched p pre -> AgentProc.no_exit p post ->
+  frames_of x (AgentProc.frames_for p (AgentProc.g_run true (pre ++ AgentProc.PAccept p :: post)))
+  = zipl (ins_of x (AgentProc.fires_of p post)) (outs_of x (AgentProc.fires_of p post)).
+Proof.
+  intros pre post p x Hu Hn. destruct (AgentProc.live_frames pre post p Hu Hn) as [E _]. rewrite E. apply frames_zip.
+Qed.
+Print Assumptions C19_live_process_frames.
